@@ -205,6 +205,24 @@ def guard(seconds: Optional[float] = None):
             signal.setitimer(signal.ITIMER_REAL, max(0.01, old_left - (time.time() - t0)))
 
 
+def raised_in_repo(e: BaseException) -> Optional[str]:
+    """If the exception was raised by code of the implementation under test (not by the harness), 'file:function' of
+    the raising frame.  A replay that dies in the implementation while it only READS the document (first/last
+    token, index in the store, a property getter, printing) has met a document that is no longer observable: that is
+    a verdict about the code, not a machinery failure."""
+    tb = e.__traceback__
+    last = None
+    while tb is not None:
+        last = tb
+        tb = tb.tb_next
+    if last is None:
+        return None
+    fn = os.path.abspath(last.tb_frame.f_code.co_filename)
+    if fn.startswith(os.path.abspath(REPO) + os.sep):
+        return f'{os.path.relpath(fn, REPO)}:{last.tb_frame.f_code.co_name}'
+    return None
+
+
 class Guarded:
     """Picklable wrapper of a pool job function: ('ok', result) or ('runaway', info)."""
 
